@@ -1,5 +1,6 @@
 import Cd.Basic
 import Cd.Couples
+import Cd.Devs
 namespace CdDrv
 open Cd
 def parseInts (s : String) : List Int := if s = "-" then [] else (s.splitOn ",").filterMap (·.toInt?)
@@ -24,6 +25,29 @@ partial def loop (h : IO.FS.Stream) : IO Unit := do
     let back := CdC.decode (CdC.encode m)
     let fmtRow := fun (r : CdC.Row) => if r.isEmpty then "-" else ",".intercalate (r.map fun (c, v) => s!"{c}={v}")
     IO.println (if back.isEmpty then "." else ";".intercalate (back.map fmtRow))
+  | ["dvs", am, ts] =>
+    -- ts: `tick:dev:commits:a/r/c:lang=a/r/c|…;…` (language "" is `_`), `-` = no entries; entries grouped by tick
+    let pls := fun (s : String) => match (s.splitOn "/").map (·.toInt!) with
+      | [a, r, c] => (⟨a, r, c⟩ : CdD.LS) | _ => ⟨0, 0, 0⟩
+    let ents := if ts = "-" then [] else (ts.splitOn ";").filterMap fun e => match e.splitOn ":" with
+      | [tk, dv, c, ls, lg] =>
+        let langs := if lg = "" then [] else (lg.splitOn "|").filterMap fun kv => match kv.splitOn "=" with
+          | [k, v] => some ((if k = "_" then "" else k), pls v) | _ => none
+        some (tk.toInt!, dv.toInt!, (⟨c.toInt!, pls ls, langs⟩ : CdD.DT))
+      | _ => none
+    let ticks : CdD.Ticks := ents.foldl (fun acc (tk, dv, st) =>
+      match acc.getLast? with
+      | some (tk', ds) => if tk' = tk then acc.dropLast ++ [(tk', ds ++ [(dv, st)])] else acc ++ [(tk, [(dv, st)])]
+      | none => [(tk, [(dv, st)])]) []
+    let fls := fun (l : CdD.LS) => s!"{l.added}/{l.removed}/{l.changed}"
+    let shw := fun (t : CdD.Ticks) =>
+      let flat := t.flatMap fun (tk, ds) => ds.map fun (dv, st) => (tk, dv, st)
+      let flat := flat.mergeSort (fun x y => x.1 < y.1 || (x.1 == y.1 && x.2.1 ≤ y.2.1))
+      if flat.isEmpty then "-" else ";".intercalate (flat.map fun (tk, dv, st) =>
+        let lg := (st.langs.mergeSort (fun x y => x.1 ≤ y.1)).map fun (k, v) => (if k = "" then "_" else k) ++ "=" ++ fls v
+        s!"{tk}:{dv}:{st.commits}:{fls st.ls}:" ++ "|".intercalate lg)
+    let m := CdD.encode am.toInt! ticks
+    IO.println (shw m ++ " # " ++ shw (CdD.decode am.toInt! m))
   | ["nop"] => IO.println "ok"
   | _ => IO.println "bad-op"
   loop h
